@@ -241,6 +241,46 @@ func VH_C11_Accounting() {
 	vreach("accounting-done")
 }
 
+// C11 on the count boundaries: 1 / 252 / 253 inputs against 1 / 252 / 253 outputs (the two counts
+// take their varint widths independently); the repeated inputs / outputs are one object each.
+func VH_C11_CountBoundary() {
+	counts := []int{1, 252, 253}
+	nIn := counts[vnondetLen("nin", 0, 2)]
+	nOut := counts[vnondetLen("nout", 0, 2)]
+	tx := &Tx{Version: vnondetU32("version"), LockTime: vnondetU32("locktime")}
+	in := &Input{previousTxID: vnondetBytes("txid", 32, 32), PreviousTxOutIndex: vnondetU32("vout"), SequenceNumber: 0xffffffff,
+		PreviousTxSatoshis: vnondetRange("insats", 0, vMaxSats/512), PreviousTxScript: vp2pkhScript("inpkh")}
+	for i := 0; i < nIn; i++ {
+		tx.Inputs = append(tx.Inputs, in)
+	}
+	out := &Output{Satoshis: vnondetRange("outsats", 0, vMaxSats/512), LockingScript: vscript("lock", 1, 1)}
+	for i := 0; i < nOut; i++ {
+		tx.Outputs = append(tx.Outputs, out)
+	}
+	fq := vquote()
+	sz := tx.SizeWithTypes()
+	total := len(tx.Bytes())
+	data := 0
+	if refIsDataScript(*out.LockingScript) {
+		data = nOut * len(*out.LockingScript)
+	}
+	vassert(sz.TotalBytes == uint64(total) && tx.Size() == total, "C11: count boundary: total = serialised length")
+	vassert(sz.TotalDataBytes == uint64(data) && sz.TotalStdBytes+sz.TotalDataBytes == sz.TotalBytes, "C11: count boundary: total = standard + data")
+	want := refFee(uint64(total-data), uint64(data), fq)
+	enough, err := tx.IsFeePaidEnough(fq)
+	vassert(err == nil, "C11: count boundary: IsFeePaidEnough succeeds")
+	si, so := uint64(nIn)*in.PreviousTxSatoshis, uint64(nOut)*out.Satoshis
+	vassert(enough == (si >= so && si-so >= want), "C11: count boundary: fee-sufficiency predicate is exact")
+	// the estimate for the unsigned transaction covers the size with 107-byte unlocking scripts
+	est, err := tx.EstimateSizeWithTypes()
+	vassert(err == nil, "C11: count boundary: estimate succeeds")
+	if err == nil {
+		estd, edata := refEstimatedSizes(tx)
+		vassert(est.TotalStdBytes == estd && est.TotalDataBytes == edata, "C11: count boundary: estimated size is the size with every input signed")
+	}
+	vreach("countboundary-done")
+}
+
 // C11: estimation on P2PKH-funded transactions: upper bound on the signed size, and errors
 // instead of guesses for missing / unsupported spent scripts.
 func VH_C11_Estimate() {
